@@ -3,6 +3,7 @@ package c13
 import (
 	"encoding/binary"
 	"fmt"
+	"io"
 	"math"
 	"math/rand"
 	"regexp"
@@ -13,6 +14,7 @@ import (
 	"time"
 
 	"github.com/EliCDavis/polyform/formats/stl"
+	"github.com/EliCDavis/polyform/generator"
 	"github.com/EliCDavis/polyform/generator/artifact"
 	"github.com/EliCDavis/polyform/generator/artifact/basics"
 	"github.com/EliCDavis/polyform/generator/graph"
@@ -519,6 +521,7 @@ type StringToBytesNode = nodes.Struct[[]byte, StringToBytesData]
 // ---------------------------------------------------------------------------
 
 type live struct {
+	app      *generator.App
 	g        *graph.Instance
 	paramIDs []string
 	execs    int64
@@ -536,7 +539,10 @@ func encodeParam(kind int, display string) []byte {
 	return []byte(display)
 }
 
-func build(d *graphDesc, r *rand.Rand, intensity int) *live {
+// build creates the polyform graph of the description. viaApp: the graph.Instance is the one
+// of a generator.App whose Files are the producers (the App the edit server serves), obtained
+// through the verif hook; otherwise a bare graph.Instance.
+func build(d *graphDesc, r *rand.Rand, intensity int, viaApp bool) *live {
 	lv := &live{}
 	pnodes := make([]nodes.Node, len(d.Params))
 	pouts := make([]nodes.NodeOutput[string], len(d.Params))
@@ -587,7 +593,7 @@ func build(d *graphDesc, r *rand.Rand, intensity int) *live {
 		}
 		nouts[i] = (&JoinNode{Data: jd}).Out()
 	}
-	g := graph.New(&refutil.TypeFactory{})
+	files := map[string]nodes.NodeOutput[artifact.Artifact]{}
 	for _, p := range d.Producers {
 		var out nodes.NodeOutput[artifact.Artifact]
 		if p.Stl {
@@ -598,7 +604,17 @@ func build(d *graphDesc, r *rand.Rand, intensity int) *live {
 		} else {
 			out = basics.NewTextNode(nouts[p.Node])
 		}
-		g.AddProducer(p.Name, out)
+		files[p.Name] = out
+	}
+	var g *graph.Instance
+	if viaApp {
+		lv.app = &generator.App{Name: "c13", Version: "v0", Description: "C13 history", Files: files, Out: io.Discard}
+		g = generator.VerifGraph(lv.app)
+	} else {
+		g = graph.New(&refutil.TypeFactory{})
+		for _, p := range d.Producers {
+			g.AddProducer(p.Name, files[p.Name])
+		}
 	}
 	lv.g = g
 	lv.paramIDs = make([]string, len(d.Params))
